@@ -24,6 +24,7 @@ inductive Stmt where
   | cont
   | swc (c : Nat) (a : Stmt) (rest : Stmt)          -- switch { case c: a; <rest> }   (rest: further cases / default)
   | swd (d : Stmt)                                  -- … default: d }   (empty d: no default clause)
+  | ret (n : Nat)                                   -- return e…  (leaf n evaluates the results)
   deriving Repr
 
 /-- the leaf codes: actions and conditions -/
@@ -76,6 +77,7 @@ def compile (L : Leaves) : Stmt → List Instr
     rw (1 + P.length) 0 B ++ P ++ [jump "JUMP" (-((B.length : Int) + P.length + 1))]
   | .brk => [{ op := "BREAK" }]
   | .cont => [{ op := "CONTINUE" }]
+  | .ret n => L.act n ++ [{ op := "RETURN" }]
   | .swd d => rwB 0 (compile L d)
   | .swc c a r =>
     let A := compile L a
